@@ -203,24 +203,24 @@ def build(repo):
     U.raw(common.STD_COMBINATORS + PRELUDE + SPEC, label="prelude fetch")
     U.item(F, "enum RequestItem", subs=[("validator::BlockNumber", "BlockNumber")])
     # ---- the three closures that run under the watch lock
-    U.lift_closure(F, "impl Queue :: fn request", "|x| {\n                    x.insert(n, send);", "request_insert_closure",
-                   "(x: &mut BlockInner, n: BlockNumber, send: OneshotSender) -> (r: bool)",
+    U.lift_closure(F, "impl Queue :: fn request", "|x| {", "request_insert_closure",
+                   "(x: &mut BlockInner, n: BlockNumber, send: OneshotSender) -> (r: bool)", nth=0, of=2,
                    post_subs=[("x.insert(n, send);", "x.insert(n, send); proof { assert(x@.contains_key(n.0)); }   /* W-ghost: the queue is not empty now */")],
                    spec="""
     ensures final(x)@ == old(x)@.insert(n.0, send.id()),        // the request is in the queue, nothing else changed
             is_min(final(x)@, n.0) ==> r,                       // acceptors are woken whenever the lowest requested block changed
 """)
-    U.lift_closure(F, "impl Queue :: fn request", "|x| {\n                            let modified", "request_cancel_closure",
-                   "(x: &mut BlockInner, n: BlockNumber) -> (r: bool)",
-                   subs=[("x.first_key_value().is_some_and(|(k, _)| k == &n)",
-                          "(match x.first_key_value() { Some(verif_e) => verif_e.0 == &n, None => false })   /* R-std: is_some_and with a tuple pattern */")],
+    U.lift_closure(F, "impl Queue :: fn request", "|x| {", "request_cancel_closure",
+                   "(x: &mut BlockInner, n: BlockNumber) -> (r: bool)", nth=1, of=2,
+                   subs=[(".is_some_and(|(k, _)| k == &n)",
+                          ".is_some_and(|verif_e: (&BlockNumber, &OneshotSender)| -> (verif_b: bool) ensures verif_b == (*verif_e.0 == n) { let (k, _) = verif_e; k == &n })   /* W-closure + R-tuplepat */")],
                    spec="""
     ensures final(x)@ == old(x)@.remove(n.0),                   // only the cancelled request leaves the queue
             (is_min(old(x)@, n.0)) ==> r,
 """)
-    U.lift_closure(F, "impl Queue :: fn accept_block", "|x| {\n                res = x.remove_entry", "accept_remove_closure",
+    U.lift_closure(F, "impl Queue :: fn accept_block", "|x| {", "accept_remove_closure",
                    "(x: &mut BlockInner, res: &mut Option<(BlockNumber, OneshotSender)>, block_number: BlockNumber) -> (r: bool)",
-                   subs=[("res = x.remove_entry(&block_number);", "*res = x.remove_entry(&block_number);   /* R-closure: captured by mutable reference */")],
+                   subs=[("res = x.", "*res = x.   /* R-closure: captured by mutable reference */")],
                    spec="""
     ensures
         // handed out at most once: the entry leaves the queue in the same critical section in which it is read
@@ -235,10 +235,9 @@ def build(repo):
     U.fn(F, "impl Queue :: fn request", wrap="impl Queue", ret="res",
          attrs="#[verifier::exec_allows_no_decreases_clause]",
          header_subs=[("ctx::Ctx", "Ctx"), ("ctx::OrCanceled<()>", "Result<(), Canceled>")],
-         subs=[("oneshot::channel()", "oneshot_channel()"),
-               ("RequestItem::Block(n) => self.blocks.send_if_modified(|x| {\n                    x.insert(n, send); $B\n                }),",
-                "RequestItem::Block(n) => { blocks_request_insert(&self.blocks, n, send); }   /* R-stub: closure verified as request_insert_closure */"),
-               ("RequestItem::Block(n) => self.blocks.send_if_modified(|x| {\n                            let modified $B\n                        }),",
+         subs=[("let (send, recv) = oneshot::channel();\n            match r { RequestItem::Block(n) => self.blocks.send_if_modified(|x| { $B }), };",
+                "let (send, recv) = oneshot_channel(); match r { RequestItem::Block(n) => { blocks_request_insert(&self.blocks, n, send); } };   /* R-stub: closure verified as request_insert_closure */"),
+               ("RequestItem::Block(n) => self.blocks.send_if_modified(|x| { $B }),",
                 "RequestItem::Block(n) => { blocks_request_cancel(&self.blocks, n); }   /* R-stub: closure verified as request_cancel_closure */"),
                ("recv.recv_or_disconnected(ctx).await", "recv_or_disconnected(recv, ctx, Ghost(match r { RequestItem::Block(n) => n.0 })).await   /* W-ghost */"),
                ("Ok(Err(sync::Disconnected))", "Ok(Err(Disconnected))"), ("Err(ctx::Canceled)", "Err(Canceled)", 2)],
